@@ -585,6 +585,68 @@ def run_config(task):
         shutil.rmtree(tmp, ignore_errors=True)
 
 
+def render_wfn(rng):
+    """A WFN file in the layout Gaussian writes (AIMPAC format): per shell, per Cartesian component, all primitives of the
+    contraction.  Contraction lengths of 1..6 for every angular momentum (the regrouping of the reader must not assume that a
+    contraction has as many primitives as the shell has components).  The primitive coefficients are contraction coefficient x
+    orbital coefficient x normalisation, printed numbers: the file itself is the specification of the orbitals."""
+    from ..refeval import cart_norm
+    types = _wfn_types()
+    first = {0: 0, 1: 1, 2: 4, 3: 10, 4: 20}
+    ncomp = {0: 1, 1: 3, 2: 6, 3: 10, 4: 15}
+    natom = rng.randint(1, 3)
+    xyz = [[round(rng.uniform(-1.0, 1.0) + 1.7 * i, 6) for _ in range(3)] for i in range(natom)]
+    z = [rng.choice([1, 6, 8, 7]) for _ in range(natom)]
+    shells = []
+    for _ in range(rng.randint(1, 4)):
+        l = rng.choice([0, 1, 1, 2, 2, 3])
+        shells.append((rng.randrange(natom), l, rng.choice([1, 2, 2, 3, 4, 6]) if l else rng.choice([1, 3, 6])))
+    shells.sort(key=lambda t: t[0])
+    cent, typ, expo, pinfo = [], [], [], []
+    nb = 0
+    for ic, l, nprim in shells:
+        ex = sorted((round(10 ** rng.uniform(-0.6, 1.3), 5) for _ in range(nprim)), reverse=True)
+        dk = [round(rng.uniform(0.2, 0.9), 5) for _ in range(nprim)]
+        for c in range(ncomp[l]):
+            for k in range(nprim):
+                cent.append(ic + 1)
+                typ.append(first[l] + c + 1)
+                expo.append(ex[k])
+                pinfo.append((nb + c, dk[k] * cart_norm(ex[k], types[first[l] + c])))
+        nb += ncomp[l]
+    nmo = max(1, min(nb, 3))
+    C = [[round(rng.uniform(-1.0, 1.0), 6) for _ in range(nmo)] for _ in range(nb)]
+
+    def d(v, w, dec):
+        sgn = "-" if v < 0 else " "
+        if v == 0:
+            return (sgn + "0." + "0" * dec + "D+00").rjust(w)
+        import math
+        e = int(math.floor(math.log10(abs(v)))) + 1
+        mant = round(abs(v) / 10.0 ** e, dec)
+        if mant >= 1.0:
+            mant, e = mant / 10.0, e + 1
+        return (sgn + f"{mant:.{dec}f}D{'+' if e >= 0 else '-'}{abs(e):02d}").rjust(w)
+
+    sym = {1: "H", 6: "C", 7: "N", 8: "O"}
+    lines = [" generated in the layout of a Gaussian WFN file", f"GAUSSIAN {nmo:14d} MOL ORBITALS {len(cent):6d} PRIMITIVES {natom:8d} NUCLEI"]
+    for i in range(natom):
+        lines.append(f"  {sym[z[i]]:<3s}{i + 1:3d}    (CENTRE{i + 1:3d}) {xyz[i][0]:12.8f}{xyz[i][1]:12.8f}{xyz[i][2]:12.8f}  CHARGE ={float(z[i]):5.1f}")
+    for s0 in range(0, len(cent), 20):
+        lines.append("CENTRE ASSIGNMENTS  " + "".join(f"{v:3d}" for v in cent[s0:s0 + 20]))
+    for s0 in range(0, len(typ), 20):
+        lines.append("TYPE ASSIGNMENTS    " + "".join(f"{v:3d}" for v in typ[s0:s0 + 20]))
+    for s0 in range(0, len(expo), 5):
+        lines.append("EXPONENTS " + "".join(d(v, 14, 7) for v in expo[s0:s0 + 5]))
+    for j in range(nmo):
+        lines.append(f"MO{j + 1:5d}     MO 0.0        OCC NO ={2.0 if j < max(1, nmo - 1) else 0.0:13.7f}  ORB. ENERGY ={-3.0 + 0.71 * j:12.6f}")
+        co = [C[fn][j] * f for fn, f in pinfo]
+        for s0 in range(0, len(co), 5):
+            lines.append("".join(d(v, 16, 8) for v in co[s0:s0 + 5]))
+    lines += ["END DATA", f" TOTAL ENERGY =  {-74.965901217080:20.12f} THE VIRIAL(-V/T)={2.00600239:13.8f}"]
+    return "\n".join(lines) + "\n"
+
+
 def foreign_load(task):
     """A WFN / WFX file written by another program: the loaded orbitals are the functions the file's primitive expansion denotes."""
     path, fmt = task
@@ -781,6 +843,13 @@ def check(run: Run):
     # (h2o_error.wfx is a deliberately damaged file of the test suite)
     foreign = [(p, f) for p, f, _ in corpus() if f in ("wfn", "wfx", "fchk", "mwfn") and "error" not in os.path.basename(p)
                and (run.thorough() or os.path.getsize(p) < 400000)]
+    gdir = os.path.join(run.work, "genwfn")
+    os.makedirs(gdir, exist_ok=True)
+    for k in range(run.pick(40, 600)):
+        gp = os.path.join(gdir, f"generated_{k:03d}.wfn")
+        with open(gp, "w") as fh:
+            fh.write(render_wfn(random.Random(run.seed * 7717 + k)))
+        foreign.append((gp, "wfn"))
     fevents = pmap(foreign_load, foreign, chunksize=1)
     events = events + fevents
     run.notes["foreign_files_loaded"] = len(fevents)
@@ -804,7 +873,8 @@ def check(run: Run):
             run.distinct("foreign:" + e["file"])
             if r != 1:
                 flags = [k for k in ("readable", "count_same", "orbitals_same", "occs_same", "energies_same") if not e[k]]
-                run.violation(f"{e['fmt']} file of another program loads differently from its primitive expansion: {','.join(flags)} ({e['file']})",
+                fname = "generated file" if e["file"].startswith("generated_") else e["file"]
+                run.violation(f"{e['fmt']} file of another program loads differently from its primitive expansion: {','.join(flags)} ({fname})",
                               json.dumps(e), {"event": e})
             continue
         outs[e["out"]] = outs.get(e["out"], 0) + 1
